@@ -293,6 +293,10 @@ def check_reassembly(ctx):
         r = [s for s in rules.func_stmts(pm.node) if isinstance(s, ast.Return)]
         got = norm(r[0].value) if r else None
         ok = got in (want, want.replace("self.blocks", "self._blocks"), want.replace("self._blocks", "self.blocks"), "b''.join([block.data for block in self._blocks])")
+        if not ok:
+            from .. import refmodels
+
+            ok = refmodels.agrees(ctx, f"SecsIMessage.{prop}", prop="C16")  # another spelling with the summary of the reviewed model
         ctx.ob("C16.P3", pm.qualname, ok, f"SecsIMessage.{prop}: {got}" if ok else f"SecsIMessage.{prop} returns `{got}`, expected `{want}`", where=pm.where)
     fb = repo.method("Message", "from_block", inherited=False)
     r = [s for s in rules.func_stmts(fb.node) if isinstance(s, ast.Return)]
